@@ -54,7 +54,7 @@ type BlockSpec struct {
 	QN     uint64
 	PV     int64
 	Castor int
-	TimeMs int64 // offset of CurTime from EpochTime
+	TimeMs int64  // offset of CurTime from EpochTime
 	Skip   uint64 // height slots skipped (the block is cast at parent height + 1 + Skip)
 	Txs    []*types.Transaction
 }
@@ -71,6 +71,8 @@ func (n *Node) CastBlock(spec BlockSpec) (*types.Block, error) {
 	top := n.Chain.TopBlock()
 	group := n.Groups.GetGroupByHeight(0)
 	ts := EpochTime.Add(time.Duration(spec.TimeMs) * time.Millisecond)
+	noteSimTime(EpochTime)
+	noteSimTime(ts)
 	bh, ok := n.Chain.CastBlock(ts, top.Height+1+spec.Skip, big.NewInt(spec.PV), common.Hash{}, spec.QN, common.FromHex(Castors[spec.Castor%len(Castors)]), group.Id)
 	if !ok {
 		return nil, fmt.Errorf("CastBlock refused")
